@@ -1,5 +1,6 @@
 import BfeVerif.C41.Proofs
 import BfeVerif.C41.Select
+import BfeVerif.C41.Serve
 /-!
   C41 — TLS negotiation picks mutually supported parameters and resists downgrade.
   Property theorems only.  All are about `readClientHello` of `Model.lean`, i.e. about the decisions taken
@@ -451,6 +452,44 @@ example : certGet { vip := [], normal := [("x.b.example.com", "C1")], wildcard :
 example : clientAuthStep 4 none = .error 42 := rfl
 example : clientAuthStep 4 (some ⟨true, false, true, true, true, true⟩) = .ok (some ⟨true, false, true, true, true, true⟩) := rfl
 example : clientAuthStep 3 (some ⟨true, false, false, true, true, true⟩) = .error 42 := rfl
+
+/-! ## End to end: the rule looked up for (VIP, SNI) is the rule `readClientHello` applies -/
+
+theorem C41_fact_server_name_first : serverNameSetBeforeLookups = true := by decide
+
+/-- **The negotiation is governed by the rule configured for the presented SNI / VIP.**  `readClientHello` looks the
+    rule up through the Conn; because the hello's server name is stored in the Conn BEFORE that lookup (fact
+    `serverNameSetBeforeLookups`), what it applies is exactly the rule `C41_rule_lookup` describes for (vip, sni) — and
+    an accepted hello therefore has a version the rule's grade allows, a chacha20 suite only if the rule enables
+    them, an RC4 suite only under the rule's grade policy, the client-certificate policy of the rule
+    (RequireAndVerify if it demands client auth, else the Config's), and an ALPN answer from the rule's protocols
+    (or the "http/1.1" substituted for a mutual "h2"). -/
+theorem C41_rule_applied (t : RuleTable Rule) (cfg : Config) (vip : Option String) (sni : String) (h : Hello) (lk : Lookups) :
+    serve t cfg vip sni h lk = readClientHello cfg (some (getRule t vip sni)) h lk ∧
+    ∀ p, serve t cfg vip sni h lk = .ok p →
+      GradeAllows (getRule t vip sni).grade p.vers ∧
+      (p.suite.has suiteChacha20 = true → (getRule t vip sni).chacha20 = true) ∧
+      (p.suite.has suiteRC4 = true → checkCipherGrade cfg (getRule t vip sni).grade p.vers ≠ .disable) ∧
+      p.clientAuth = (if (getRule t vip sni).clientAuth then requireAndVerifyClientCert else cfg.clientAuth) ∧
+      (p.alpn ≠ "" → p.alpn ∈ (getRule t vip sni).nextProtos ∨
+        (p.alpn = "http/1.1" ∧ "h2" ∈ (getRule t vip sni).nextProtos)) := by
+  have hs : serve t cfg vip sni h lk = readClientHello cfg (some (getRule t vip sni)) h lk := by
+    unfold serve nameSeenByLookups; rw [C41_fact_server_name_first]; rfl
+  refine ⟨hs, ?_⟩
+  intro p hp
+  rw [hs] at hp
+  have hv := C41_version_upper hp
+  have hsu := (C41_suite hp).2.2
+  refine ⟨hv.2.2, hsu.chacha, hsu.rc4off, ?_, ?_⟩
+  · obtain ⟨v0, v, suite, _, _, ho⟩ := rch_ok hp
+    cases ho with
+    | resumed st _ hpp => rw [hpp]; rfl
+    | full _ _ hpp => rw [hpp]; rfl
+    | fullNoExt _ _ hpp => rw [hpp]; rfl
+  · intro hne
+    rcases C41_alpn_partial hp hne with hm | ⟨he, _, h2, _⟩
+    · exact Or.inl hm.2
+    · exact Or.inr ⟨he, h2⟩
 
 /-! Non-vacuity: concrete accepted hellos on each path (run by the kernel). -/
 example : readClientHello wCfg none wHello wNoLookups =
